@@ -323,13 +323,17 @@ def _nt_token_cause(f):
         return "trailing-comment-scanned-as-literal"
     if "bnode-subject-followed-by-tab" in f:
         return "blank-node-subject-followed-by-tab"
+    # the recorded '^^' findings are about plain and typed literals: the reader looks for the language tag first, so a
+    # language-tagged literal with '^^' in its text is read correctly and any failure on one is a matter of its own
+    if "caret-in-lex" in f and "lang" in f:
+        return "caret-caret-in-lang-literal"
     if "caret-then-space-in-lex" in f:
         return "caret-caret-then-space-inside-lexical-form"
     if "escaped-backslash-then-escaped-quote" in f and "plain" in f and "caret-in-lex" not in f:
         return "escaped-backslash-then-escaped-quote"
     if "quote-then-caret" in f:
         return "quote-then-caret-caret-in-lexical-form"
-    if "caret-in-lex" in f and ("plain" in f or "lang" in f):
+    if "caret-in-lex" in f and "plain" in f:
         return "caret-caret-in-plain-literal"
     return None
 
@@ -386,7 +390,9 @@ def nt_classify(case, outcome):
         sym = "datatype %r instead of %r" % (got[5], exp[5])
         hard = tok in ("dot-glued-to-object-before-comment", "no-space-after-object", "trailing-comment-scanned-as-literal",
                        "blank-node-subject-followed-by-tab", "caret-caret-then-space-inside-lexical-form")
-        if "quote-then-caret" in f and not hard:
+        if "caret-in-lex" in f and "lang" in f and not hard:
+            cause = "caret-caret-in-lang-literal"
+        elif "quote-then-caret" in f and not hard:
             cause = "quote-then-caret-caret-in-lexical-form"
         elif hard:
             cause = tok
@@ -1395,7 +1401,21 @@ def has_relative_datatype(case):
     return any(_REL_DT.search(o) for _, sts in case["parts"] for st in sts for (_, objs) in st[1] for o in objs)
 
 
+_COLON_LOCAL = re.compile(r"^[A-Za-z]*:[^:]*:")
+
+
+def has_colon_in_local_name(case):
+    for _, sts in case["parts"]:
+        for st in sts:
+            terms = [st[0]] + [p for p, _ in st[1]] + [o for _, objs in st[1] for o in objs]
+            if any(_COLON_LOCAL.match(t) and not t.startswith("_:") for t in terms):
+                return True
+    return False
+
+
 def redecl_category(case):
+    if has_colon_in_local_name(case):
+        return "colon-in-local-name"
     seen, cats = {}, set()
     for directives, _ in case["parts"]:
         for d in directives:
@@ -1468,6 +1488,25 @@ def ttl_redeclaration_cases():
     for parts in docs + relative_datatype_documents()[0]:
         for layout in REDECL_LAYOUTS:
             yield {"parts": parts, "layout": layout, "family": "redeclaration"}
+
+
+def ttl_colon_local_cases():
+    """Prefixed names whose local part holds ':' (valid PN_LOCAL: ex:item:42, voc:part:of) as subject, predicate and
+    object, with neighbours that differ after the second colon only (ex:item:42 / ex:item:43 / ex:item),
+    in three layouts.  (Not in the family, because the unchanged reader already fails on them -- str.replace expands EVERY
+    occurrence of '<label>:' in the token -- and reported to the coordinator instead: a local part that repeats the label,
+    ex:apex:1 -> <http://ex.org/aphttp://ex.org/1>, and the empty prefix, :a:b -> <http://default.org/ahttp://default.org/b>.)"""
+    head = ["@prefix ex: <http://ex.org/> .", "@prefix voc: <http://voc.org/ns#> .", "@prefix : <http://default.org/> ."]
+    docs = [
+        [[head, [["ex:item:42", [["voc:part:of", ["ex:item:43"]]]]]]],
+        [[head, [["ex:item:42", [["voc:part:of", ["ex:item:43", "ex:item"]], ["a", ["voc:kind:a"]]]],
+                 ["ex:item:43", [["voc:part:of", ["ex:item:42"]], ["voc:part", ['"x"']]]],
+                 ["ex:item", [["voc:part:of:too", ["ex:item:42:1"]]]]]]],
+        [[head, [["<http://ex.org/s1>", [["voc:part:of", ["ex:2024:10:05", "ex:item:42"]]]], ["_:b1", [["ex:p", ["ex:item:42"]]]]]]],
+    ]
+    for parts in docs:
+        for layout in REDECL_LAYOUTS:
+            yield {"parts": parts, "layout": layout, "family": "colon-in-local-name"}
 
 
 def relative_datatype_documents():
